@@ -76,6 +76,37 @@ def job_fn(job):
                 smap={k: str(v) for k, v in c.smap.items()}, argvals=argvals)
 
 
+def precision_history_job(job):
+    """both float precisions in ONE process (concrete, not solver-decided): a function compiled with float64 keeps
+    returning its float64 value after a float32 model has been compiled for the same backend, and agrees with the
+    NumPy float64 function of the same model to 1e-12"""
+    out = dict(violations=[], checked=0)
+    spec = job['spec']
+    b = job['backend']
+    call = lambda c: np.asarray(tv.tv_to_np(c.func(*c.args)), dtype=np.float64).reshape(-1).copy()      # noqa
+    try:
+        c_np = tv.compile_template(build_python(spec), backend='default', vectorize=True, step_size=float(DT))
+        ref = call(c_np)
+        c64 = tv.compile_template(build_python(spec), backend=b, vectorize=True, step_size=float(DT))
+        v1 = call(c64)
+        tv.compile_template(build_python(job['other']), backend=b, vectorize=True, step_size=float(DT),
+                            float_precision='float32')
+        v2 = call(c64)
+    except tv.CompileError as e:
+        out['inconclusive'] = [dict(what=f"compile raised: {e}")]
+        return out
+    out['checked'] = 1
+    scale = max(1.0, float(np.max(np.abs(ref))))
+    if np.max(np.abs(v1 - ref)) > 1e-11 * scale:
+        out['violations'].append(dict(kind='precision', what=f"{b} float64 vector field differs from the NumPy float64 one "
+                                      f"by {np.max(np.abs(v1 - ref)):.3g} right after compilation"))
+    if np.max(np.abs(v2 - v1)) > 1e-13 * scale:
+        out['violations'].append(dict(kind='precision-history', what=f"a {b} function compiled with float_precision='float64' "
+                                      f"returns another value (difference {np.max(np.abs(v2 - v1)):.3g}) after an unrelated "
+                                      f"float32 model was compiled for the same backend"))
+    return out
+
+
 def run(tier='quick', seed=0, only=None, verbose=False):
     rep = Report('C02', tier, seed, 'translation_validation', functions_encoded=FUNCS + [
         'emitted torch text (symx, torch library model) incl. the helper defs PyRates prepends (interp, wsum)',
@@ -201,6 +232,25 @@ def run(tier='quick', seed=0, only=None, verbose=False):
                         rep.violation(dict(property='C02', key=f"{k}|{b}|vec={vec}", kind='argument-values',
                                            what=f"{k}: argument {name} is {v[:6]} on backend {b} and {ref[name][:6]} on numpy"))
     rep.section('argument_values', compared=n_cmp)
+    pj = []
+    fm = families.fam_mixed_nodes(seed, n=2)
+    for b in ('jax', 'torch'):
+        pj.append(dict(key=f"precision-history:{b}", backend=b, spec=fm[0][1], other=fm[1][1]))
+    if only:
+        pj = [j for j in pj if only in j['key']]
+    for job, outc in runner.run_jobs(precision_history_job, pj, timeout=600):
+        if not outc['ok']:
+            rep.harness_error(f"{job['key']}: {outc['error']} {outc.get('tb', '')[-400:]}")
+            continue
+        r = outc['result']
+        rep.program(job['key'], nontrivial=bool(r['checked']))
+        rep.section('precision_history', probes=r['checked'])
+        for v in r['violations']:
+            rec = dict(property='C02', key=job['key'], **v)
+            rec['what'] = f"{job['key']}: {v['what']}"
+            rep.violation(rec, findings.attribute('C02', job, rec))
+        for i in r.get('inconclusive', []):
+            rep.inconcl(dict(key=job['key'], **i))
     # same solver settings -> same trajectories: each backend's own fixed-step kernel (BaseBackend, TorchBackend, JaxBackend
     # _solve_euler/_solve_heun) integrates ONE uninterpreted, time-dependent vector field; all must return the same
     # reference iterates (harness of C03, a small grid here)
